@@ -133,3 +133,68 @@ impl Report {
             .set("exhaustive", self.exhaustive)
     }
 }
+
+impl Report {
+    /// Merge a child's report (as produced by `to_json`) into this one.
+    pub fn merge_json(&mut self, js: &Json) {
+        self.evaluations += js.get("evaluations").and_then(|v| v.as_u64()).unwrap_or(0);
+        if let Some(a) = js.get("distinct_hashes").and_then(|v| v.as_arr()) {
+            for h in a {
+                if let Some(s) = h.as_str() {
+                    if let Ok(v) = u64::from_str_radix(s, 16) {
+                        self.distinct.insert(v);
+                    }
+                }
+            }
+        }
+        if let Some(Json::Obj(m)) = js.get("observed") {
+            for (k, v) in m {
+                let n = v.as_u64().unwrap_or(0);
+                if k.starts_with("max_") {
+                    self.max(k, n);
+                } else {
+                    self.count(k, n);
+                }
+            }
+        }
+        if let Some(Json::Obj(m)) = js.get("seen") {
+            for (k, v) in m {
+                if let Some(a) = v.as_arr() {
+                    for s in a {
+                        if let Some(s) = s.as_str() {
+                            self.see(k, s);
+                        }
+                    }
+                }
+            }
+        }
+        if let Some(a) = js.get("samples").and_then(|v| v.as_arr()) {
+            for s in a {
+                self.sample(s.clone());
+            }
+        }
+        if let Some(a) = js.get("violations").and_then(|v| v.as_arr()) {
+            for v in a {
+                let sig = v.get("sig").and_then(|s| s.as_str()).unwrap_or("?").to_string();
+                let detail = v.get("detail").and_then(|s| s.as_str()).unwrap_or("").to_string();
+                let witness = v.get("witness").cloned().unwrap_or(Json::Null);
+                let shard = v.get("shard").and_then(|s| s.as_u64()).unwrap_or(0);
+                let index = v.get("index").and_then(|s| s.as_u64()).unwrap_or(0);
+                let same = self.violations.iter().filter(|x| x.sig == sig).count();
+                if same < 3 && self.violations.len() < self.max_violations {
+                    self.violations.push(Violation { sig, detail, witness, case: (shard, index) });
+                }
+            }
+        }
+        self.inconclusive += js.get("inconclusive").and_then(|v| v.as_u64()).unwrap_or(0);
+        if let Some(a) = js.get("inconclusive_notes").and_then(|v| v.as_arr()) {
+            for s in a {
+                if let Some(s) = s.as_str() {
+                    if self.inconclusive_notes.len() < 20 {
+                        self.inconclusive_notes.push(s.to_string());
+                    }
+                }
+            }
+        }
+    }
+}
